@@ -50,7 +50,8 @@ def run(tier):
             "write", "destroy", "reextent", "reextent_fill", "clear", "reshape"]
     aplan = [("c19_arr_d1", aconsts(1, 2, 3, True, aops)), ("c19_arr_d2", aconsts(2, 2, 2, True, aops))]
     if tier == "thorough":
-        aplan += [("c19_arr_d2_deep", aconsts(2, 2, 3, True, aops)), ("c19_arr_d3", aconsts(3, 2, 2, True, aops))]
+        core = ["ctor_iota", "ctor_copy", "ctor_view", "assign_copy", "assign_view", "assign_other", "swap", "reextent", "reextent_fill", "write"]
+        aplan += [("c19_arr_d2_deep", aconsts(2, 2, 3, True, core)), ("c19_arr_d3", aconsts(3, 1, 2, True, core))]
     for name, c in aplan:
         c["ABases"] = vlib.Sub("ABasesMixed" if c["DimD"] == 1 or (tier == "thorough" and name == "c19_arr_d2") else "ABasesTwo")
         arrays.run_config(rep, "C19", name, c, exe_int, wd, len(c["Slots"]), check_first=True, sig_extra={"part": "arrays"})
